@@ -4,7 +4,7 @@ from .common import CFGS
 META = {
     "bounds": {"quick": {"scores": "P,N in 1..2 (sorted harness; full AUC: arbitrary ties; partial AUC: no cross-class ties)", "easy counts": "{(0,0),(1,2)}",
                          "interval": "symbolic 0 <= lower <= upper <= 1", "axes": "fpr/tpr, y=fnr, x=tnr, exchanged axes"},
-               "thorough": {"scores": "P,N in 1..3", "easy counts": "{(0,0),(1,2),(2,0)}"}},
+               "thorough": {"scores": "full AUC: P+N <= 5 (3+2, 2+3); partial AUC: P,N <= 2 for every configuration and easy pair, 3+2 / 2+3 for two configurations each with easy (1,2); 3+3 is outside (hours)", "easy counts": "{(0,0),(1,2),(2,0)}"}},
     "assumptions": ["R-ideal: rates and the trapezoid sum are exact rationals", "one path per weak order of the scores and their one-step neighbours (adjacent floats included); on each path all counts are folded to constants (entailed by the path condition), so the area is linear in lower/upper",
                     "nextafter = one-step functions with gap axioms against all input scores (R-ideal items); kind=fbits: z3 FloatingPoint scores with bit-precise nextafter through the real auc() on 1+1 scores (rates stay exact rationals)"],
 }
@@ -14,15 +14,19 @@ OPTS = {"quick": {"query_timeout_ms": 30000, "max_paths": 100000, "max_decisions
 
 def items(tier):
     out = []
-    szs = [(1, 1), (2, 1), (1, 2), (2, 2)] if tier == "quick" else [(1, 1), (2, 1), (1, 2), (2, 2), (3, 2), (2, 3), (3, 3)]
+    # measured (one core): full 3+2 / 2+3 ~200 s per item; partial 3+2 ~2500 s per (config, easy pair) over its 4 slices; 3+3 does not
+    # fit any budget (hours) and is outside both tiers
+    szs = [(1, 1), (2, 1), (1, 2), (2, 2)] if tier == "quick" else [(1, 1), (2, 1), (1, 2), (2, 2), (3, 2), (2, 3)]
     easy = [(0, 0), (1, 2)] if tier == "quick" else [(0, 0), (1, 2), (2, 0)]
-    for sc, ec in CFGS:
+    for ci, (sc, ec) in enumerate(CFGS):
         for P, N in szs:
             for kp, kn in easy:
                 out.append({"kind": "full", "sc": sc, "ec": ec, "P": P, "N": N, "kp": kp, "kn": kn})
+                if P + N == 5 and not ((kp, kn) == (1, 2) and (P, N) == ((3, 2) if ci < 2 else (2, 3))):
+                    continue      # partial AUC at 5 scores: one easy pair, 3+2 for two configurations and 2+3 for the other two
                 if (P, N) != (2, 2) or tier == "thorough" or (kp, kn) == (1, 2):
                     if P * N >= 4:   # split the order types over work items (first/last pair comparisons) for parallelism
-                        for sl in range(4 if P * N < 9 else 8):
+                        for sl in range(4):
                             out.append({"kind": "partial", "sc": sc, "ec": ec, "P": P, "N": N, "kp": kp, "kn": kn, "slice": sl})
                     else:
                         out.append({"kind": "partial", "sc": sc, "ec": ec, "P": P, "N": N, "kp": kp, "kn": kn})
